@@ -110,6 +110,9 @@ pub enum ItKind {
 pub enum Step {
     // raw vector
     RawWithLen(u16, bool),
+    /// a long sparse (or, complemented, dense) vector with a leading empty zone: the only way into the long select
+    /// superblock regime (needs more than 83 521 bits); (length class, leading zone in 1/256 of the length, mean gap, complement, seed)
+    RawBig(u8, u8, u8, bool, u16),
     RawPushBit(bool),
     RawPushInt(u64, u8),
     RawPopBit,
@@ -314,6 +317,18 @@ fn view_inside(kind: &str, offset: usize, map_offset: usize, map_len: usize, tot
 fn run_step(h: &mut Heap, step: &Step, scratch_key: u64) -> Result<(), Fail> {
     match step {
         Step::RawWithLen(n, b) => h.raw = RawVector::with_len(*n as usize, *b),
+        Step::RawBig(class, lead, gap, complement, seed) => {
+            let len = [90_000usize, 131_073, 200_000, 300_000][*class as usize % 4] + *seed as usize % 1000;
+            let mut raw = RawVector::with_len(len, *complement);
+            let mut rng = crate::util::SplitMix::new(*seed as u64);
+            let mut pos = len * (*lead as usize) / 256;
+            let mean = 20 + (*gap as u64 % 100);
+            while pos < len {
+                raw.set_bit(pos, !*complement);
+                pos += rng.geometric(mean) as usize;
+            }
+            h.raw = raw;
+        }
         Step::RawPushBit(b) => h.raw.push_bit(*b),
         Step::RawPushInt(v, w) => unsafe { h.raw.push_int(*v, *w as usize % 65) },
         Step::RawPopBit => call!(h, h.raw.pop_bit()),
@@ -741,8 +756,11 @@ fn run_step(h: &mut Heap, step: &Step, scratch_key: u64) -> Result<(), Fail> {
             push(&mut file, &mut offsets);
             let _ = None::<RawVector>.serialize(&mut file);
             // optionally cut the file short: views of the structures that lose their end must be refused (or at least stay inside the map)
-            let cut = (*cut as usize % 8).saturating_sub(4).min(file.len() / 8);
-            file.truncate(file.len() - 8 * cut);
+            // (one case in four keeps the file complete, otherwise it is cut at an arbitrary element)
+            if *cut % 4 != 0 {
+                let keep = (file.len() / 8) * (*cut as usize) / 256;
+                file.truncate(8 * keep.max(1));
+            }
             let total = file.len() / 8;
             let path = std::env::temp_dir().join(format!("c08-{}-{:016x}", std::process::id(), scratch_key));
             if std::fs::write(&path, &file).is_err() {
@@ -766,6 +784,7 @@ fn run_step(h: &mut Heap, step: &Step, scratch_key: u64) -> Result<(), Fail> {
                     if o >= total {
                         h.extreme_calls += 1;
                     }
+                    // the expected structure kind is known from the layout, whether or not the cut file still contains all of it
                     let slot = offsets.iter().position(|&x| x == o);
                     h.calls += 1;
                     let r = catch(|| -> Result<(), Fail> {
@@ -865,6 +884,7 @@ pub fn step_strategy() -> BoxedStrategy<Step> {
     let len = prop_oneof![3 => 0u16..200, 2 => prop_oneof![Just(63u16), Just(64), Just(65), Just(127), Just(128), Just(512), Just(4096)], 1 => 0u16..5000, 1 => Just(u16::MAX)];
     prop_oneof![
         3 => (len.clone(), any::<bool>()).prop_map(|(n, b)| Step::RawWithLen(n, b)),
+        1 => (any::<u8>(), any::<u8>(), any::<u8>(), any::<bool>(), any::<u16>()).prop_map(|(c, l, g, k, s)| Step::RawBig(c, l, g, k, s)),
         3 => any::<bool>().prop_map(Step::RawPushBit),
         3 => (any::<u64>(), 0u8..65).prop_map(|(v, w)| Step::RawPushInt(v, w)),
         1 => Just(Step::RawPopBit),
@@ -949,12 +969,13 @@ impl Prop for C08 {
             match s {
                 Step::Map(_, _, c) => {
                     rep.class("uses:memory-map");
-                    rep.class_if(*c % 8 > 4, "uses:truncated-map");
+                    rep.class_if(*c % 4 != 0, "uses:truncated-map");
                 }
                 Step::Iter(Target::Plain, _, _, _) => rep.class("uses:plain-iterators"),
                 Step::Iter(Target::Sparse, _, _, _) => rep.class("uses:sparse-iterators"),
                 Step::Iter(Target::Rl, _, _, _) => rep.class("uses:rl-iterators"),
                 Step::StaleSupport(_) => rep.class("uses:stale-support"),
+                Step::RawBig(_, _, _, _, _) => rep.class("uses:long-superblock-regime"),
                 Step::Reload(_) => rep.class("uses:reload"),
                 Step::WmQuery(_, _, _) | Step::CoreQuery(_, _, _) => rep.class("uses:wavelet-matrix"),
                 _ => {}
@@ -969,7 +990,7 @@ impl Prop for C08 {
     }
 
     fn health(classes: &BTreeMap<String, u64>, _tier: Tier) -> Result<(), String> {
-        for c in ["program-with-caught-panics", "uses:memory-map", "uses:truncated-map", "uses:plain-iterators", "uses:sparse-iterators", "uses:rl-iterators", "uses:stale-support", "uses:reload", "uses:wavelet-matrix"] {
+        for c in ["program-with-caught-panics", "uses:memory-map", "uses:truncated-map", "uses:plain-iterators", "uses:sparse-iterators", "uses:rl-iterators", "uses:stale-support", "uses:long-superblock-regime", "uses:reload", "uses:wavelet-matrix"] {
             if classes.get(c).copied().unwrap_or(0) == 0 {
                 return Err(format!("no generated case reached class {}", c));
             }
